@@ -222,7 +222,7 @@ def nontrivial(case: Case, out: str) -> bool:
 
 
 def generate(rng: random.Random, tier: str):
-    n = 2500 if tier == "quick" else 300000
+    n = 30000 if tier == "quick" else 300000
     out = []
     for i in range(n):
         kind = "cycle" if rng.random() < 0.15 else "ranked"
